@@ -367,9 +367,18 @@ class SampleFileListAdapter(Adapter):
         patch_entry = cast(PatchEntry, obj)
         sc = SampleFileAdapter(Pass)
 
+        # samples already handed out for another patch of the same performance
+        seen_in_performance = None
+        if "_" in context.keys():
+            seen_in_performance = context["_"].get("_seen_sample_indices")
+
         sample_files = {}
         for partial_entry in patch_entry.partial_entries:
             for sample_entry in partial_entry.sample_entries:
+                if seen_in_performance is not None:
+                    if sample_entry.index in seen_in_performance:
+                        continue
+                    seen_in_performance.add(sample_entry.index)
                 if sample_entry.index not in sample_files.keys():
                     sample_file = sc._decode(sample_entry, context, path)
                     sample_files[sample_entry.index] = sample_file
